@@ -26,6 +26,13 @@ CHECKS["C14"] = dict(
   note="Trusts the harness fold. A bits type repeating a position may be accepted or rejected (property lists value uniqueness for enums only).",
   design="DESIGN.md section 4, C14")
 
+CHECKS["C10"] = dict(
+  category="exploration",
+  technique="boundary-grid enumeration + rapid random restriction chains against a big-integer interval-set reference (independent range-string reader), through typedef chains in module text and the ParseRanges API",
+  text="For each numeric type, length and decimal64 precision, every 1- and 2-part restriction over the boundary grid and every parent/child pair of single parts is evaluated through module text (typedef chains, Entry.Type.Range/Length) and through ParseRangesInt/Decimal, then compared with interval-set arithmetic in math/big: must-reject (syntax, lo>hi, widening), must-accept (ascending disjoint within parent), and on acceptance set equality, sortedness, coalescing, fraction-digits and narrowing at every link. rapid adds chains up to depth 4 with up to 5 parts relative to the current parent set. Boundary-complete for the integer extremes; interior values sampled.",
+  note="Trusts the harness range reader and math/big. Overlapping/descending parts may be accepted or rejected; hex/octal/+/-0 literals and over-precise decimals are not judged.",
+  design="DESIGN.md section 4, C10")
+
 PENDING = {}
 
 def main():
